@@ -57,8 +57,10 @@ def rules(model: Model, tier: str) -> List[RuleResult]:
     _adj = model.cls(linopalg.LINOP, "AdjointLinearOperator")
     linopalg.stateless(model, STL, classes=[_lin], only_methods={"H", "m", "mv", "mm", "rmv", "rmm", "fullmatrix", "uselinopparams"})
     linopalg.stateless(model, STL, classes=[_adj])
+    HF = RuleResult(PROP, "C02-HF", "Hermitian flag of composed operators (a wrong True makes A.H the operator itself in the adjoint solve)", min_instances=4)
+    linopalg.hermitian_flags(model, HF)
     _hy = ac.hygiene_rules(model, ac.get_fncls(model, 'solve_torchfcn'), PROP, min_copies=2, min_opt=2)
-    return [R1, R2, R3, R4, R5, R6, H, S, *_hy, ADJ, STL]
+    return [R1, R2, R3, R4, R5, R6, H, S, *_hy, ADJ, STL, HF]
 
 
 def _backward_group_order(fc, R6: RuleResult):
